@@ -11,7 +11,7 @@ RATES = [64.0, 128.0, 256.0, 1000.0, 4000.0]
 RULE = ("Cases: (consistency) methods {hilbert,nht,quad} x sample rates {64..4000} x smooth_phase in {default, 3, 31, None, 0} x smooth in-band AM-FM inputs with "
         "1-3 columns; (sinusoid) pure cosines with >=6 cycles per record, f <= sr/12, amplitude over 3 decades, start "
         "phase in [0,2pi); (lattice, enumerated) cosines with a whole number P of samples per cycle (12..60 quick, 12..240 thorough) and peaks on samples - for odd P every trough lies between two exactly equal samples - x 4 shifts x 3 amplitudes x methods, checked pointwise (quad: 10% IF, 2% IA, 0.05 rad); (storage) AM-FM IMF sets rounded to integers and stored as int64 / int32 / int16 / float32 vs the same values as float64 (1e-9, float32: 2e-3); (roundtrip) frequency profiles {constant, ramp, sinusoidally modulated, random smooth} in 1-3 "
-        "columns through phase_from_freq -> freq_from_phase; (scale) x -> c*x for c=2^k (|k|<=8) and real c in "
+        "columns through phase_from_freq -> freq_from_phase; (scale) x -> c*x for c=2^k (|k|<=8 and |k| in {30,40,50}) and real c in "
         "[1e-3,1e3], plus amplitude_normalise sign/scale invariance; (stack) 3-D [samples x imfs x imfs2] input - C-contiguous, column-major, an axis-swapped view or a strided view - vs its 2-D slices; (reuse) one array object filled with two IMF sets in turn; (columns) 2-4 column sets, optionally with one non-oscillating column (constant / ramp / zero / single bump) and in C / column-major / strided layout, vs each column alone. Oracle: shapes; 0<=IP<=2pi (exact 2pi counted); "
         "IF == sr*gradient(unwrap(IP))/2pi (1e-6 rel); interior-half medians |IF-f|/f, |IA-A|/A, circular |IP-truth| "
         "within calibrated tolerances (hilbert/nht also pointwise); roundtrip[i] == (f[i]+f[i+1])/2 inside, f[1], "
@@ -291,7 +291,9 @@ def scale_case(draw):
     d = draw(amfm_case())
     d['n'] = min(d['n'], 800)
     if draw(st.booleans()):
-        d['c'] = 2.0 ** draw(st.integers(-8, 8))
+        # moderate factors, and factors that take an order-one IMF to 1e-9 .. 1e-15 or 1e+9 .. 1e+15 (nothing in the
+        # transform may depend on an absolute amplitude)
+        d['c'] = 2.0 ** draw(st.one_of(st.integers(-8, 8), st.sampled_from([-50, -40, -30, 30, 40, 50])))
         d['dyadic'] = True
     else:
         d['c'] = 10 ** draw(st.floats(-3, 3))
